@@ -274,7 +274,7 @@ func Main(e Engine, args []string) {
 		}
 		a.add(res, len(a.stat.Samples) < *samples && done < uint64(*samples))
 		done++
-		if done%128 == 0 {
+		if done%32 == 0 {
 			a.flush(out)
 		}
 	}
